@@ -696,6 +696,10 @@ func isIndexMT(t string) bool { return t == "ocii" || t == "dockl" }
 
 func (m *Monitors) mPut(h *H, a []string, r Resp) {
 	m.common(h, "MPUT", r)
+	// with the referrers API disabled a push has no referrers effect: no OCI-Subject header (C19: each switch has its effect and no other)
+	if !*h.conf.API.Referrer.Enabled && r.Subj != "" {
+		m.flag(h, "C19.referrers-off-effect", fmt.Sprintf("push answered with OCI-Subject %s although the referrers API is disabled", r.Subj))
+	}
 	repo, ref := a[0], a[1]
 	rs := m.repo(repo)
 	name := kv(a, "body")
@@ -1553,7 +1557,7 @@ func (m *Monitors) afterGC(h *H, repo string) {
 			delete(m.aged, repo+"|"+d)
 		}
 	}
-	// C06: a second pass changes nothing
+	// C06: a second pass changes nothing (no forced reload here: nothing happened since the first pass)
 	_ = h.srv.VerifGC(repo)
 	again := m.gcSnapshot(h, repo)
 	for d, was := range post.present {
